@@ -788,3 +788,170 @@ def check_pack(ck, P, rid):
         else:
             ck.holds(rid, inst, c.where, "%s forwards (%s) unchanged" % (g.name, ", ".join(gp)), cfg)
     ck.expect(rid, n, 2, "ScheduleNewEvent implementations that build an event")
+
+
+# ---------------------------------------------------------------------------------------------------------------
+# history entries are dereferenced only when proven to be real message pointers
+# ---------------------------------------------------------------------------------------------------------------
+def _history_load(rhs, hint="p_msgs"):
+    """rhs reads an element of the LP history: array_get_at(<..p_msgs..>, i) / array_peek(..) / items[i]."""
+    if rhs is None:
+        return None
+    for x in rhs.walk():
+        if x.k == "ArraySubscriptExpr" and hint in X.show(x.children[0]):
+            return x
+    return None
+
+
+def _derefs_param(g, k):
+    p = g.params[k]
+    for n in g.walk():
+        if n.k == "MemberExpr" and n.arrow:
+            b = X.strip(n.children[0])
+            if b.k == "DeclRefExpr" and b.did == p["did"] and not Q.unevaluated(n):
+                return True
+    return False
+
+
+def check_entry_derefs(ck, P, rid, floor=10, only=None):
+    """An element of the LP history is a tagged word: a real message pointer only when both tag bits are clear.  Every dereference of a
+    variable that holds a history element (directly, or as an argument of a function that dereferences that parameter) is reached only
+    after tests that prove the element untagged -- or the element is the LAST one of the history, which the layout makes a processed
+    message.  (Stripping the tag with unmark_msg* gives a different expression and is not a dereference of the element.)"""
+    from .rules_index import ordered_paths
+    cfg = P.config
+    n_sites = 0
+    for f in P.all_functions():
+        if not (f.file.endswith("lp/process.c") or f.file.endswith("gvt/fossil.c")) or not f.d.get("cfg"):
+            continue
+        if only and f.name not in only:
+            continue
+        # variables ever loaded from the history
+        loads = {}       # assignment / VarDecl node id -> (did, subscript node)
+        for n in f.walk():
+            if n.k == "VarDecl" and n.children and typestate.is_msg_ptr_type(n.t):
+                rhs = n.children[0]
+                if not any(mm.startswith("unmark_msg") for x in rhs.walk() for mm in x.macros):
+                    s = _history_load(rhs)
+                    if s is not None:
+                        loads[n.id] = (n.did, s)
+            elif n.k == "BinaryOperator" and n.op == "=" and X.strip(n.children[0]).k == "DeclRefExpr" and typestate.is_msg_ptr_type(X.strip(n.children[0]).t):
+                rhs = n.children[1]
+                if not any(mm.startswith("unmark_msg") for x in rhs.walk() for mm in x.macros):
+                    s = _history_load(rhs)
+                    if s is not None:
+                        loads[n.id] = (X.strip(n.children[0]).did, s)
+        if not loads:
+            continue
+        dids = {d for d, s in loads.values()}
+        sites = []
+        for n in f.walk():
+            if Q.unevaluated(n):
+                continue
+            if n.k == "MemberExpr" and n.arrow:
+                b = X.strip(n.children[0])
+                if b.k == "DeclRefExpr" and b.did in dids:
+                    sites.append((n, b, "->%s" % n.name))
+            elif n.k == "CallExpr" and n.callee:
+                g = P.fn_opt(n.callee)
+                if g is None:
+                    continue
+                for k, a in enumerate(X.callee_args(n)):
+                    b = X.strip(a)
+                    if b.k == "DeclRefExpr" and b.did in dids and k < len(g.params) and _derefs_param(g, k):
+                        sites.append((n, b, "argument of %s" % n.callee))
+        for node, var, what in sites:
+            inst = "entry-deref@%s:%s:%s" % (f.name, var.name, what)
+            paths, complete = ordered_paths(f, node, revisit=True)
+            bad = None
+            relevant = False
+            for seq in paths:
+                src = None          # None: not a history element; "hist"; "last"
+                m1 = m2 = m3 = None
+                infeasible = False
+                for ev in seq:
+                    if ev[0] == "e":
+                        n0 = ev[1]
+                        tgt = None
+                        if n0.k == "VarDecl" and n0.did == var.did:
+                            tgt = n0
+                        elif n0.k == "BinaryOperator" and n0.op == "=" and X.strip(n0.children[0]).k == "DeclRefExpr" and X.strip(n0.children[0]).did == var.did:
+                            tgt = n0
+                        if tgt is not None:
+                            m1 = m2 = m3 = None
+                            if tgt.id in loads:
+                                src = "last" if _is_last_entry(f, loads[tgt.id][1], tgt) else "hist"
+                            else:
+                                src = None
+                        continue
+                    core, t = ev[1], ev[2]
+                    tt = None
+                    cc = X.strip(core)
+                    if cc.k == "BinaryOperator" and cc.op == "&" and X.const_int(cc.children[1]) in (1, 2, 3):
+                        rv = typestate.root_var(cc.children[0])
+                        if rv is not None and rv.did == var.did:
+                            tt = X.const_int(cc.children[1])
+                    prev = {1: m1, 2: m2, 3: m3}.get(tt)
+                    if tt is not None and prev is not None and prev != t:
+                        infeasible = True
+                    if tt == 3 and t is False and (m1 or m2):
+                        infeasible = True
+                    if tt in (1, 2) and t and m3 is False:
+                        infeasible = True
+                    if tt == 1:
+                        m1 = t
+                    elif tt == 2:
+                        m2 = t
+                    elif tt == 3:
+                        m3 = t
+                if infeasible or src is None:
+                    continue
+                relevant = True
+                if src == "last":
+                    continue
+                if not ((m3 is False) or (m1 is False and m2 is False)):
+                    bad = "tests on the path since the element was loaded: &1=%s &2=%s &3=%s" % (m1, m2, m3)
+            if not relevant:
+                continue
+            n_sites += 1
+            if bad:
+                ck.violated(rid, inst, node.where, "a history element that may carry a tag (a message the LP SENT, bit 0 or bit 1 set) is dereferenced as if it were a processed message: the read goes through a misaligned pointer into another LP's message (%s)" % bad, cfg)
+            elif not complete:
+                ck.inconclusive(rid, inst, node.where, "path bound reached", cfg)
+            else:
+                ck.holds(rid, inst, node.where, "reached only with an element proven untagged, or with the last element of the history (%d paths)" % len(paths), cfg)
+    ck.expect(rid, n_sites, floor, "dereferences of history elements")
+
+
+def _is_last_entry(f, sub, load):
+    """The subscript is count-1 of the same array: `--i` (or i - 1) where i's only earlier definition is `i = array_count(A)`, the
+    load is outside every loop and precedes every other write of i."""
+    idx = X.strip(sub.children[1])
+    v = None
+    if idx.k == "UnaryOperator" and idx.op == "--" and not idx.d.get("postfix"):
+        v = X.strip(idx.children[0])
+    elif idx.k == "BinaryOperator" and idx.op == "-" and X.const_int(idx.children[1]) == 1:
+        v = X.strip(idx.children[0])
+    if v is None or v.k != "DeclRefExpr":
+        return False
+    decl = [n for n in f.walk() if n.k == "VarDecl" and n.did == v.did]
+    if not decl or not decl[0].children:
+        return False
+    init = decl[0].children[0]
+    arr = X.show(sub.children[0])
+    if not any("array_count" in x.macros for x in init.walk()):
+        return False
+    base = arr.replace(".items", "").replace("(", "").replace(")", "")
+    if base not in X.show(init).replace("(", "").replace(")", ""):
+        return False
+    g = f.cfg
+    pos = g.position(load)
+    if pos is None:
+        return False
+    if load.id in g.reachable_from(pos):
+        return False        # inside a loop
+    for w in f.walk():
+        if w.k == "DeclRefExpr" and w.did == v.did and X.is_write_target(w) and not any(w is y for y in idx.walk()):
+            if not g.dominates(load, w):
+                return False
+    return True
